@@ -134,6 +134,9 @@ fn execute(cfg: &Config, ex: &mut Explorer) -> ExecResult {
             lg.lock().unwrap().push(Log::Snapshot { by: me, regions: first.clone() });
             step("clone-snapshot");
             let c = snap.clone();
+            // a clone of a snapshot shows the same map as the snapshot it was cloned from
+            let via_clone = read_map(&c, &unmapped_now());
+            lg.lock().unwrap().push(Log::Reread { by: me, first: first.clone(), again: via_clone });
             step("into_inner");
             let owned: Arc<Mem> = snap.into_inner();
             step("drop-clone");
